@@ -176,10 +176,42 @@ def boundary(ch, ops):
     return ops, 1 + len(victims)
 
 
+def cross_bundles(ch, ops):
+    """Two bundle instances of one module whose flattened member names cross: `b1` has a leaf
+    `u_v` (a member of that name, or member `v` of sub-bundle `u`), and another bundle instance
+    with a leaf `v` is renamed `b1_u` - both want the flat name `b1_u_v`.  Which of the two gets
+    the fresh name depends on the order of flattening, in this module and in every parent that
+    connects the two (if they are ports)."""
+    d = refmodel.load(ops)
+    cands = []
+    for mid, m in d.mods.items():
+        taken = set(m.sigs) | set(m.buns) | set(m.insts)
+        for b1, (bid1, _p1, _f1) in m.buns.items():
+            for path1, _w1 in d.bundle_leaves(bid1):
+                flat1 = "_".join(path1)
+                for b2, (bid2, _p2, _f2) in m.buns.items():
+                    if b2 == b1:
+                        continue
+                    for path2, _w2 in d.bundle_leaves(bid2):
+                        tail = "_".join(path2)
+                        if flat1.endswith("_" + tail) and len(flat1) > len(tail) + 1:
+                            new = f"{b1}_{flat1[: -len(tail) - 1]}"
+                            if new not in taken and new not in RESERVED:
+                                cands.append((mid, b2, new))
+    if not cands:
+        return ops, 0
+    mid, old, new = ch.pick(sorted(set(cands)), "cross")
+    return rename(ops, d, mid, "bun", old, new), 1
+
+
 def adversarial(ch, ops):
     """Apply 1-4 adversarial renamings. Returns (ops, number applied)."""
     if ch.chance(1, 10):
         ops2, n = boundary(ch, ops)
+        if n:
+            return ops2, n
+    if ch.chance(1, 4):
+        ops2, n = cross_bundles(ch, ops)
         if n:
             return ops2, n
     applied = 0
